@@ -156,6 +156,8 @@ def _task(ob_name, job_idx, prefix, twin_offset):
                     rep["concrete"] = dict(kind=pl.kind, message=pl.message, extra=jsonable(pl.extra))
                     # the concrete run is authoritative for classification
                     rep["kind"], rep["extra"] = pl.kind, jsonable(pl.extra)
+                    if pl.message and pl.message != rep["message"]:
+                        rep["message"] = f"{pl.message}  [symbolic path: {rep['message']}]"
                 else:
                     rep["concrete"] = dict(status=st)
             except BaseException as e:
